@@ -37,6 +37,9 @@ def make_main(prog):
 
         def producer(pi, seq):
             for name in seq:
+                if name == "~":
+                    core.fake_time.sleep(0.5)  # a pause: the consumer gets to take what is waiting
+                    continue
                 n = s.record("inv", ("put", name, pi))
                 q.put(items[name])
                 s.record("ret", (n, None))
@@ -152,6 +155,9 @@ FIXED = [
     {"producers": [["A", "B"], ["A'"]], "consumer_first": False},
     {"producers": [["A", "B", "A'"]], "consumer_first": True},
     {"producers": [["A"], ["A'"], ["B"]], "consumer_first": False},
+    # two producers offer equal items at the same time, one of them offers it once more after the consumer has taken it
+    {"producers": [["A", "~", "A"], ["A'"]], "consumer_first": True},
+    {"producers": [["A", "~", "A'"], ["A", "B"]], "consumer_first": False},
 ]
 
 
@@ -159,6 +165,9 @@ FIXED = [
 def programs(draw):
     np_ = draw(st.integers(1, 3))
     prods = [draw(st.lists(st.sampled_from(NAMES), min_size=1, max_size=3 if np_ < 3 else 2)) for _ in range(np_)]
+    for pr in prods:
+        if len(pr) >= 2 and draw(st.integers(0, 2)) == 0:
+            pr.insert(draw(st.integers(1, len(pr) - 1)), "~")  # a pause between two of its puts
     return {"producers": prods, "consumer_first": draw(st.booleans())}
 
 
@@ -211,7 +220,7 @@ def run_shard(spec):
         nt, cl = check(prog, r, s)
         st_.case(["conc-rand", prog, [d[2] for d in r.decisions]], nt, ["conc"] + cl, sample={"program": prog, "schedule": sched} if count[0] % 400 == 1 else None)
 
-    res = runner.hyp_search(st.tuples(programs(), harness.SCHEDULES), body, seed=runner.derive_seed(seed, "C16c", i), max_examples=600 if tier == "quick" else 8000)
+    res = runner.hyp_search(st.tuples(programs(), harness.SCHEDULES), body, seed=runner.derive_seed(seed, "C16c", i), max_examples=2000 if tier == "quick" else 12000)
     if res is not None:
         (prog, sched), v = res
         st_.fail({"kind": "conc-random", "program": prog, "schedule": sched}, v.message, v.signature)
